@@ -15,7 +15,7 @@ func init() {
 	register(&CheckDef{
 		ID:    "C08",
 		Level: "exploration",
-		Rule: "seeded scripts of lease-service behaviour against real Stores. (1) simulated TTL lease service (expiry exactly at TTL, lock delay after an invalidation): 2-4 nodes, candidates and non-candidates, real HTTP replication over the simulated network, a writer on whichever node is primary; a seeded scheduler interleaves lease calls with everything else and injects acquire errors, renew errors for any duration, acquire-took-effect-but-reply-lost, service unreachable per node, service-side session invalidation, manual demotion, handoff requests to connected / partitioned / unknown / own node ids, partitions and stream resets. After every scheduler step the monitor compares each node's IsPrimary() with the service's own call log: primary only with a successfully acquired (or handed-over) session, not later than 250 ms after a renewal answered 'gone', not later than TTL + lock delay + 250 ms after the last successful acquire/renew; never two primaries on different sessions for longer than 250 ms; when a node stops being primary a PrimaryCtx taken while it was primary is cancelled at once and a Close of its session reaches the service within 3 s unless the session was handed off; a non-candidate never sends Acquire; AcquireExisting succeeds only for the node named in the latest accepted handoff request of that session. (2) the same monitor with the real Consul leaser talking to an in-process fake Consul HTTP API (sessions with TTL and lock delay, KV acquire/release, behaviour=delete) installed as http.DefaultClient's transport. (3) cluster-id scripts with the static leaser and the simulated service: a node whose stored cluster id differs from the service's or the primary's never becomes primary, never applies a byte of the stream and creates no database; a node without an id adopts the primary's. evaluations = monitor evaluations; distinct = distinct (scenario, fault kinds fired, role changes, handoff outcome) tuples; non-trivial = run with >= 1 role change after the first election",
+		Rule:  "seeded scripts of lease-service behaviour against real Stores. (1) simulated TTL lease service (expiry exactly at TTL, lock delay after an invalidation): 2-4 nodes, candidates and non-candidates, real HTTP replication over the simulated network, a writer on whichever node is primary; a seeded scheduler interleaves lease calls with everything else and injects acquire errors, renew errors for any duration, acquire-took-effect-but-reply-lost, service unreachable per node, service-side session invalidation, manual demotion, handoff requests to connected / partitioned / unknown / own node ids, partitions and stream resets. After every scheduler step the monitor compares each node's IsPrimary() with the service's own call log: primary only with a successfully acquired (or handed-over) session, not later than 250 ms after a renewal answered 'gone', not later than TTL + lock delay + 250 ms after the last successful acquire/renew; never two primaries on different sessions for longer than 250 ms; when a node stops being primary a PrimaryCtx taken while it was primary is cancelled at once and a Close of its session reaches the service within 3 s unless the session was handed off; a non-candidate never sends Acquire; AcquireExisting succeeds only for the node named in the latest accepted handoff request of that session. (2) the same monitor with the real Consul leaser talking to an in-process fake Consul HTTP API (sessions with TTL and lock delay, KV acquire/release, behaviour=delete) installed as http.DefaultClient's transport. (3) cluster-id scripts with the static leaser and the simulated service: a node whose stored cluster id differs from the service's or the primary's never becomes primary, never applies a byte of the stream and creates no database; a node without an id adopts the primary's. evaluations = monitor evaluations; distinct = distinct (scenario, fault kinds fired, role changes, handoff outcome) tuples; non-trivial = run with >= 1 role change after the first election",
 		Run:   runC08,
 		NonTrivial: func(r *Run) bool {
 			return r.Stats["c08.role-change"] > 1 || r.Stats["c08.clusterid.checked"] > 0
